@@ -376,7 +376,9 @@ def runApp (v : Variant) (app : App) : Run :=
 
 /-! ## delivery: `call_soon` and the stream's handling of the messages -/
 
-inductive Worker | asyncio | trio
+/-- who hands `sync_spawn` / `call_soon` to `WSGIWrapper.__call__`: a worker's `TaskGroup.spawn_app` (the built-in WSGI
+    mode) or one of the WSGI middleware classes of `middleware/wsgi.py` (a WSGI application mounted inside an ASGI one) -/
+inductive Worker | asyncio | trio | asyncioMiddleware | trioMiddleware
 deriving Repr, DecidableEq
 
 open Extracted.WsgiSites in
@@ -386,6 +388,8 @@ open Extracted.WsgiSites in
 def callSoonWaits : Worker → Bool
   | .asyncio => asyncioCallSoonWaits
   | .trio => trioCallSoonWaits
+  | .asyncioMiddleware => asyncioMiddlewareCallSoonWaits     -- `AsyncioWSGIMiddleware.__call__`'s `_call_soon`
+  | .trioMiddleware => trioMiddlewareCallSoonWaits           -- `TrioWSGIMiddleware.__call__`: `trio.from_thread.run`
 
 /-- the messages the HTTP stream accepts out of those `run_app` issues, when the send of message number `i` suspends iff
     `susp i` (the transport applies back-pressure: a slow client, a paused transport).  With a waiting `call_soon` a
